@@ -714,6 +714,12 @@ func (eng *Engine) EffectsString(fn *ssa.Function) string {
 
 // extFuncCall: the enclosing function's contract declares the called variable to hold a library function
 func (eng *Engine) extFuncCall(c *ssa.CallCommon) bool {
+	if p, ok := c.Value.(*ssa.Parameter); ok {
+		// a parameter declared pure: an uninterpreted function application, no effect
+		if fc := eng.ContractOf(p.Parent()); fc != nil && flagHas(fc.Flags["pureparam"], p.Name()) {
+			return true
+		}
+	}
 	ins, ok := c.Value.(ssa.Instruction)
 	var fn *ssa.Function
 	if ok {
